@@ -176,6 +176,9 @@ type Monitor struct {
 	ID          string
 	Level       string // exploration | fault_enumeration
 	Race        bool   // workers use the -race build
+	// RaceKinds, if set, splits the work: cases of these kinds run in workers of the -race build,
+	// all others in the plain build.
+	RaceKinds map[string]bool
 	Rule        string
 	Technique   string
 	Assumptions []string
@@ -211,7 +214,7 @@ func IDs() []string {
 // ---- worker side ----
 
 // RunWorker executes shard i of n and writes the report.
-func RunWorker(m *Monitor, tier string, seed int64, shard, of int, out, scratch string) {
+func RunWorker(m *Monitor, tier string, seed int64, shard, of int, out, scratch string, group string) {
 	c := newCtx(m.ID, tier, seed, scratch)
 	if m.Setup != nil {
 		if err := m.Setup(c); err != nil {
@@ -222,8 +225,13 @@ func RunWorker(m *Monitor, tier string, seed int64, shard, of int, out, scratch 
 	}
 	cases := m.Cases(tier, seed)
 	w := bufio.NewWriter(os.Stdout)
+	k := 0
 	for _, cs := range cases {
-		if cs.Idx%of != shard {
+		if group == "race" && !m.RaceKinds[cs.Kind] || group == "plain" && m.RaceKinds[cs.Kind] {
+			continue
+		}
+		k++
+		if k%of != shard {
 			continue
 		}
 		b, _ := json.Marshal(cs)
@@ -356,10 +364,43 @@ func Orchestrate(m *Monitor, tier string, seed int64, exe, exeRace string) int {
 	if m.Timeout != nil {
 		timeout = m.Timeout(tier)
 	}
-	bin := exe
-	if m.Race {
-		bin = exeRace
+	type wspec struct {
+		bin, group string
+		shard, of  int
 	}
+	var specs []wspec
+	if len(m.RaceKinds) > 0 {
+		nr, np := 0, 0
+		for _, cs := range cases {
+			if m.RaceKinds[cs.Kind] {
+				nr++
+			} else {
+				np++
+			}
+		}
+		wr, wp := workers, workers
+		if wr > nr {
+			wr = nr
+		}
+		if wp > np {
+			wp = np
+		}
+		for i := 0; i < wp; i++ {
+			specs = append(specs, wspec{exe, "plain", i, wp})
+		}
+		for i := 0; i < wr; i++ {
+			specs = append(specs, wspec{exeRace, "race", i, wr})
+		}
+	} else {
+		bin := exe
+		if m.Race {
+			bin = exeRace
+		}
+		for i := 0; i < workers; i++ {
+			specs = append(specs, wspec{bin, "all", i, workers})
+		}
+	}
+	workers = len(specs)
 
 	type wres struct {
 		rep      *Report
@@ -380,8 +421,9 @@ func Orchestrate(m *Monitor, tier string, seed int64, exe, exeRace string) int {
 			wscratch := filepath.Join(scratch, fmt.Sprintf("w%d", i))
 			os.MkdirAll(wscratch, 0o755)
 			lf, _ := os.Create(logp)
-			cmd := exec.Command(bin, "-worker", "-prop", m.ID, "-tier", tier, "-seed", fmt.Sprint(seed),
-				"-shard", fmt.Sprint(i), "-of", fmt.Sprint(workers), "-out", out, "-scratch", wscratch,
+			sp := specs[i]
+			cmd := exec.Command(sp.bin, "-worker", "-prop", m.ID, "-tier", tier, "-seed", fmt.Sprint(seed),
+				"-shard", fmt.Sprint(sp.shard), "-of", fmt.Sprint(sp.of), "-group", sp.group, "-out", out, "-scratch", wscratch,
 				"-logtostderr=false", "-log_dir="+wscratch)
 			cmd.Stdout = lf
 			cmd.Stderr = lf
@@ -552,7 +594,7 @@ func Orchestrate(m *Monitor, tier string, seed int64, exe, exeRace string) int {
 		"inconclusive_cases":  merged.Counters["inconclusive"],
 		"inconclusive_sample": headStr(merged.Inconclusive, 10),
 		"known_findings_seen": len(known),
-		"race_detector":       m.Race,
+		"race_detector":       m.Race || len(m.RaceKinds) > 0,
 		"notes":               merged.Notes,
 	}
 	if merged.DistinctCap {
